@@ -121,6 +121,11 @@ class NameSanitizer:
         "config",
         "utils",
         "helpers",
+        # Members of the generated APIClient (a tag attribute of the same name would replace them)
+        "transport",
+        "request",
+        "close",
+        "base_url",
     }
 
     @staticmethod
